@@ -68,6 +68,8 @@ def plan(tier, seed):
     specs.append({"kind": "lists", "count": 800 if tier == "quick" else 20000})
     specs.append({"kind": "systematic"})
     specs.append({"kind": "after_activity", "count": 40 if tier == "quick" else 1500})
+    for T in ([4] if tier == "quick" else [2, 4, 8, 16]):
+        specs.append({"kind": "threads", "threads": T, "count": 1500 if tier == "quick" else 20000})
     return specs
 
 
@@ -133,6 +135,12 @@ def judge(dotted, oracle, kind, arg_case, rec, lib, cls=""):
         rec.violation("grammar/%s/rejects-wellformed%s" % (dotted, cls), "well-formed input rejected", case)
     elif exp == schema.R and acc:
         rec.violation("grammar/%s/accepts-malformed%s" % (dotted, "/" + cls if cls else ""), "malformed input accepted", case)
+    elif exp == schema.R and rec.evaluations % 4 == 0:
+        # the same malformed value offered again right after its rejection
+        o2 = boundary.call(lib, fn, caselang.dec(arg_case, lib))
+        rec.count("repeats_after_reject")
+        if (o2.accepted and o2.value is True) if kind == "pred" else o2.accepted:
+            rec.violation("grammar/%s/accepts-malformed/on-repeat" % dotted, "malformed input rejected the first time, accepted when offered again", case)
     return acc
 
 
@@ -380,7 +388,52 @@ def run_after_activity(spec, rec, lib):
     rec.sample({"after_activity": "respellings of keys/signatures re-validated after the canonical spelling was loaded, used and verified"})
 
 
+def run_threads(spec, rec, lib):
+    """a validator's verdict on a value does not depend on what other threads validate at the same time"""
+    from ..engines import threads
+
+    rng = random.Random(spec["seed"])
+    jobs, meta = [], []
+    while len(jobs) < spec["count"]:
+        if rng.random() < 0.6:
+            a, _cls = gen_string(rng)
+            dotted, oracle, kind = rng.choice(STR_FUNCS)
+        else:
+            e = {"signature": GOOD["signature"](rng)}
+            if rng.random() < 0.5:
+                e["other_headers"] = GOOD["other_headers"](rng)
+                if rng.random() < 0.5:
+                    e["see_also"] = GOOD["see_also"](rng)
+            if rng.random() < 0.4:
+                f = rng.choice(list(e))
+                e[f] = bad_value(f, rng)
+            if rng.random() < 0.15:
+                e["extra"] = "x"
+            a = e
+            dotted, oracle, kind = rng.choice(ENTRY_FUNCS)
+        if not lib.has(dotted):
+            continue
+        arg = caselang.dec(a, lib)
+        jobs.append((lib.fn(dotted), (arg,), {}))
+        meta.append((dotted, kind, a, oracle(arg)))
+    res = threads.run_calls(lib, jobs, spec["threads"], rec, spec["seed"], prob=0.1, label="leaf validators")
+    if res is None:
+        return
+    for (dotted, kind, a, exp), out in zip(meta, res):
+        if out is None:
+            continue
+        rec.case("thr|%s|%s" % (dotted, boundary.fingerprint(a)))
+        acc = (out.accepted and out.value is True) if kind == "pred" else out.accepted
+        case = {"kind": "leaf", "fn": dotted, "arg": a, "vkind": kind}
+        if exp == schema.A and not acc:
+            rec.violation("grammar/%s/rejects-wellformed/under-threads" % dotted, "well-formed input rejected while other threads were validating", case)
+        elif exp == schema.R and acc:
+            rec.violation("grammar/%s/accepts-malformed/under-threads" % dotted, "malformed input accepted while other threads were validating", case)
+
+
 def run_shard(spec, rec, lib):
+    if spec["kind"] == "threads":
+        return run_threads(spec, rec, lib)
     if spec["kind"] == "after_activity":
         return run_after_activity(spec, rec, lib)
     {"strings": run_strings, "entries": run_entries, "lists": run_lists, "systematic": run_systematic}[spec["kind"]](spec, rec, lib)
